@@ -206,7 +206,11 @@ def run(R):
               "weights W, one with per-sample-and-filter weights W; the target sets hold targets outside the gamut, so the "
               "weighting decides the fit); default or per-filter constructor weights w: exhaustive up to length %d, random of "
               "length 5-%d (plus 0-2 inserted rejected registrations / re-registrations of the estimator's own arrays) beyond; read-only query bundles (captures, "
-              "gamut tests, ranges, seeded sampling, fits with explicit targets) interleaved at random. After EVERY step the "
+              "gamut tests, ranges, seeded sampling, fits with explicit targets; plus three per bundle of: relative=False queries (in_hull, "
+              "normalised in_hull, sampling, intensity scaling, range_of_solutions), range_of_solutions with the default error='raise' (raises for "
+              "targets outside the gamut / systems that are not underdetermined), bounded-hull requests while ub is infinite (raise), fits of "
+              "explicit target sets of 1 (1-D), 2 or 4 rows, i.e. another number of rows than the registered per-sample weights -- a query that "
+              "raises is still a query: state digest and caller arrays must be unchanged) interleaved at random. After EVERY step the "
               "estimator's A, K, baseline, bounds, system captures, relative captures, in_system, registered targets and fitting weights W are compared with the Lean "
               "state machine (exact rationals); at the end of every history the engine-backed queries -- including in_hull(), "
               "range_of_solutions() and fit() of the registered targets (no arguments: they use the current targets, which after a fit() "
@@ -381,6 +385,31 @@ def run(R):
                 if est.A.shape[1] > est.A.shape[0]:
                     est.range_of_solutions(arrs["Bprobe"], error="ignore")
             est.fit(arrs["Bprobe"])
+            if rng is not None:
+                # further read-only queries, three per bundle drawn at random (own stream seeded from the history's): queries in ABSOLUTE
+                # capture space (relative=False), queries that legitimately END WITH AN EXCEPTION (range_of_solutions with the default
+                # error='raise' for a target outside the gamut or a system that is not underdetermined; a bounded-hull request while ub
+                # is infinite), and fits of explicit target sets with ANOTHER NUMBER OF ROWS than the registered targets / per-sample
+                # weights (one 1-D target, two rows, four rows). Whether such a query returns or raises is counted, not judged; like every
+                # query it must leave all later answers (the state digest compared by the caller) and the caller's arrays alone.
+                qrng = np.random.default_rng(int(rng.bit_generator.state["state"]["state"]) % (2 ** 63))     # derived from the history's stream WITHOUT advancing it
+                Bp = arrs["Bprobe"]
+                extra = [("in_hull(relative=False)", lambda: est.in_hull(Bp, relative=False)),
+                         ("range_of_solutions(error='raise')", lambda: est.range_of_solutions(Bp)),
+                         ("range_of_solutions(relative=False, error='raise')", lambda: est.range_of_solutions(Bp, relative=False)),
+                         ("range_of_solutions(relative=False, error='raise')", lambda: est.range_of_solutions(Bp, relative=False)),
+                         ("sample_in_gamut(relative=False)", lambda: est.sample_in_gamut(n=3, seed=1, relative=False)),
+                         ("gamut_l1_scaling(relative=False)", lambda: est.gamut_l1_scaling(Bp, relative=False)),
+                         ("fit(one 1-D target)", lambda: est.fit(Bp[0])), ("fit(two targets)", lambda: est.fit(Bp[:2])),
+                         ("fit(four targets)", lambda: est.fit(np.vstack([Bp, Bp[:1]])))]
+                if np.all(est.lb >= 0):
+                    extra.append(("in_hull(normalized=True, relative=False)", lambda: est.in_hull(Bp, normalized=True, relative=False)))
+                wkind = ("per-sample weights" if np.ndim(est.W) == 2 else "per-filter weights")
+                for j in qrng.permutation(len(extra))[:3]:
+                    name, thunk = extra[int(j)]
+                    st_q, _ = call(thunk)
+                    R.count("query:%s%s:%s:%s" % (name, (" [%s registered]" % wkind) if name.startswith("fit(") else "",
+                                                    "ub finite" if bounded else "no upper limit", "returns" if st_q == "ok" else "raises " + st_q))
         for k_, v in arrs.items():
             if hsh(v) != h0[k_]:
                 probs.append("caller array `%s` was modified by a query" % k_)
